@@ -31,7 +31,7 @@ use poulpy_ckks::{
 use poulpy_core::{
     EncryptionLayout, GLWEAutomorphismKeyEncryptSk, GLWETensorKeyEncryptSk,
     layouts::{
-        Base2K, Degree, GLWEAutomorphismKey, GLWEAutomorphismKeyLayout, GLWEAutomorphismKeyPrepared,
+        Base2K, Degree, GGLWEToRef, GLWEAutomorphismKey, GLWEAutomorphismKeyLayout, GLWEAutomorphismKeyPrepared,
         GLWEAutomorphismKeyPreparedFactory, GLWELayout, GLWESecret, GLWESecretPreparedFactory, GLWETensorKey,
         GLWETensorKeyLayout, GLWETensorKeyPrepared, GLWETensorKeyPreparedFactory, LWEInfos, Rank,
         prepared::GLWESecretPrepared,
@@ -63,6 +63,8 @@ pub fn panic_class(msg: &str) -> &'static str {
 }
 
 thread_local! {
+    /// `dump=1`: (active, generator state, limbs of the last ZNX plaintext operand built)
+    static DUMP_PT: std::cell::RefCell<(bool, u64, String)> = std::cell::RefCell::new((false, 0, String::new()));
     static LAST_PANIC: std::cell::RefCell<String> = std::cell::RefCell::new(String::new());
 }
 
@@ -178,6 +180,8 @@ macro_rules! backend_impl {
                 pub encoder: Encoder<F>,
                 pub sk: GLWESecretPrepared<DeviceBuf<BE>, BE>,
                 pub tsk: GLWETensorKeyPrepared<DeviceBuf<BE>, BE>,
+                /// the raw tensor key as `base2k,colsIn,colsOut,dsize,dnum,size:ints` (cells in (row, input column) order), for `dump=1`
+                pub tsk_dump: String,
                 pub rot: HashMap<i64, GLWEAutomorphismKeyPrepared<DeviceBuf<BE>, BE>>,
                 pub conj: GLWEAutomorphismKeyPrepared<DeviceBuf<BE>, BE>,
                 pub scratch: ScratchOwned<BE>,
@@ -220,6 +224,21 @@ macro_rules! backend_impl {
                 module.glwe_tensor_key_encrypt_sk(&mut tsk, &sk_raw, &tsk_l, &mut xa, &mut xe, scratch.borrow());
                 let mut tskp = module.alloc_tensor_key_prepared_from_infos(&tsk_l);
                 module.prepare_tensor_key(&mut tskp, &tsk, scratch.borrow());
+                let tsk_dump = {
+                    let kr = GGLWEToRef::to_ref(&tsk);
+                    let gsize = kk.div_ceil(base2k);
+                    let mut v: Vec<String> = Vec::new();
+                    for r in 0..dnum {
+                        let cell = kr.at(r, 0);
+                        let d = cell.data();
+                        for co in 0..d.cols() {
+                            for j in 0..d.size() {
+                                v.extend(d.at(co, j).iter().map(|x| x.to_string()));
+                            }
+                        }
+                    }
+                    format!("{base2k},1,2,1,{dnum},{gsize}:{}", v.join("."))
+                };
                 let mut mk = |gal: i64, xa: &mut Source, xe: &mut Source, scratch: &mut ScratchOwned<BE>| {
                     let mut atk = GLWEAutomorphismKey::alloc_from_infos(&atk_l);
                     module.glwe_automorphism_key_encrypt_sk(&mut atk, gal, &sk_raw, &atk_l, xa, xe, scratch.borrow());
@@ -234,7 +253,7 @@ macro_rules! backend_impl {
                 }
                 let conj = mk(-1, &mut xa, &mut xe, &mut scratch);
                 let encoder = Encoder::<F>::new(n / 2).unwrap();
-                Ctx { n, base2k, module, encoder, sk, tsk: tskp, rot, conj, scratch, xa, xe }
+                Ctx { n, base2k, module, encoder, sk, tsk: tskp, tsk_dump, rot, conj, scratch, xa, xe }
             }
 
             fn show_pool(pool: &[Ct]) -> String {
@@ -278,6 +297,26 @@ macro_rules! backend_impl {
                 ctx.encoder.encode_reim(&mut rnx, &to_fv(&vals.0), &to_fv(&vals.1))?;
                 let mut z = CKKSPlaintextVecZnx::alloc(Degree(ctx.n as u32), Base2K(base2k as u32), meta);
                 rnx.to_znx(&mut z)?;
+                // `dump=1`: the data tie compares limbs; the plaintext limbs are replaced by pseudo-random balanced digits
+                // and handed to the model with the answer
+                DUMP_PT.with(|d| {
+                    let mut d = d.borrow_mut();
+                    if d.0 && base2k >= 1 && base2k < 63 {
+                        let half: i64 = 1i64 << (base2k - 1);
+                        let size = z.data().size();
+                        let mut v: Vec<String> = Vec::new();
+                        for j in 0..size {
+                            for x in z.data_mut().at_mut(0, j).iter_mut() {
+                                d.1 = d.1.wrapping_mul(6364136223846793005).wrapping_add(1442695040888963407);
+                                *x = ((d.1 >> 11) as i64 & ((1i64 << base2k) - 1)) - half;
+                                v.push(x.to_string());
+                            }
+                        }
+                        let one = if v.is_empty() { "-".to_string() } else { v.join(".") };
+                        // several plaintext operands of one call (`dot_pt_znx`) are joined by `_`
+                        d.2 = if d.2.is_empty() { one } else { format!("{}_{}", d.2, one) };
+                    }
+                });
                 Ok(z)
             }
             fn pt_rnx(ctx: &Ctx, vals: &(Vec<f64>, Vec<f64>)) -> CKKSPlaintextVecRnx<F> {
@@ -1114,6 +1153,12 @@ macro_rules! backend_impl {
                         fill_ct(c, base2k, &mut st);
                     }
                     out.push(format!("init#{}", pool.iter().map(dump_ct).collect::<Vec<_>>().join("/")));
+                    if kvu(t, "needkey", 0) == 1 {
+                        out.push(format!("key#{}", ctx.tsk_dump));
+                    }
+                    DUMP_PT.with(|d| *d.borrow_mut() = (true, st ^ 0x5DEECE66D, String::new()));
+                } else {
+                    DUMP_PT.with(|d| d.borrow_mut().0 = false);
                 }
                 let dump_of = |pool: &Vec<Ct>, f: &[&str]| -> String {
                     if !dump {
@@ -1123,7 +1168,9 @@ macro_rules! backend_impl {
                         Some(d) if d < pool.len() => dump_ct(&pool[d]),
                         _ => "-".to_string(),
                     };
-                    if f[0] == "align" { format!("#{}/{}", slot(1), slot(2)) } else { format!("#{}", slot(1)) }
+                    let pt = DUMP_PT.with(|d| std::mem::take(&mut d.borrow_mut().2));
+                    let pt = if pt.is_empty() { String::new() } else { format!("%{pt}") };
+                    if f[0] == "align" { format!("#{}/{}{}", slot(1), slot(2), pt) } else { format!("#{}{}", slot(1), pt) }
                 };
                 for (i, op) in ops.iter().enumerate() {
                     let f: Vec<&str> = op.split(',').collect();
